@@ -8,6 +8,8 @@ import (
 	"flag"
 	"fmt"
 	"os"
+	"runtime/pprof"
+	"time"
 
 	"verifharness/apph"
 	"verifharness/evmh"
@@ -31,6 +33,17 @@ func main() {
 		os.Exit(2)
 	}
 	cmd := os.Args[1]
+	if pf := os.Getenv("VERIF_HEAPPROF"); pf != "" { // development aid: heap profile sampled while the run is going on
+		go func() {
+			for i := 0; ; i++ {
+				time.Sleep(20 * time.Second)
+				if f, err := os.Create(fmt.Sprintf("%s.%d", pf, i)); err == nil {
+					_ = pprof.WriteHeapProfile(f)
+					f.Close()
+				}
+			}
+		}()
+	}
 	fs := flag.NewFlagSet(cmd, flag.ExitOnError)
 	seed := fs.Int64("seed", 1, "PRNG seed")
 	n := fs.Int("n", 100, "number of cases")
